@@ -11,6 +11,8 @@ package action
 import (
 	"strings"
 
+	chart "helm.sh/helm/v4/pkg/chart/v2"
+
 	metav1 "k8s.io/apimachinery/pkg/apis/meta/v1"
 	"k8s.io/apimachinery/pkg/api/meta"
 	"k8s.io/apimachinery/pkg/runtime/schema"
@@ -63,11 +65,13 @@ func H07Own() {
 // ownership states of the pre-existing live object
 var ownStates = []string{"absent", "unlabelled", "managed-by-only", "owned", "other-release", "other-namespace"}
 
-func plantObject(w *world, name string, state int) {
+func plantObject(w *world, name string, state int) { plantObjectNS(w, name, "default", state) }
+
+func plantObjectNS(w *world, name, ns string, state int) {
 	if state == 0 {
 		return
 	}
-	o := &symObj{TypeMeta: metav1.TypeMeta{Kind: "ConfigMap", APIVersion: "v1"}, ObjectMeta: metav1.ObjectMeta{Name: name, Namespace: "default"}, Data: "foreign"}
+	o := &symObj{TypeMeta: metav1.TypeMeta{Kind: "ConfigMap", APIVersion: "v1"}, ObjectMeta: metav1.ObjectMeta{Name: name, Namespace: ns}, Data: "foreign"}
 	switch state {
 	case 2:
 		o.Labels = map[string]string{appManagedByLabel: appManagedByHelm}
@@ -81,7 +85,36 @@ func plantObject(w *world, name string, state int) {
 		o.Labels = map[string]string{appManagedByLabel: appManagedByHelm}
 		o.Annotations = map[string]string{helmReleaseNameAnnotation: relName, helmReleaseNamespaceAnnotation: "elsewhere"}
 	}
-	w.kube.cluster[objKey{"ConfigMap", "default", name}] = o
+	w.kube.cluster[objKey{"ConfigMap", ns, name}] = o
+}
+
+// H07GateNamespace: the upgrade adds an object with the same kind and name as
+// one the release already owns, but in ANOTHER namespace, where a foreign
+// object of that name lives: identity includes the namespace.
+func H07GateNamespace() {
+	w := newWorld(newFaultPlan(0, 0, "kube"))
+	prepareHistory(w, 1) // owns ConfigMap default/a
+	state := ndChoice("ownership", len(ownStates))
+	plantObjectNS(w, "a", "other", state)
+	before := histString(w.history())
+	w.kube.log, w.kube.writes, w.store.writes = nil, nil, nil
+	c := mkChart(0, false)
+	c.Templates = append(c.Templates, &chart.File{Name: "templates/a-other.yaml",
+		Data: []byte("apiVersion: v1\nkind: ConfigMap\nmetadata:\n  name: a\n  namespace: other\ndata: v9\n")})
+	u := NewUpgrade(w.config())
+	u.Namespace = "default"
+	u.TakeOwnership = ndBool("takeOwnership")
+	_, err := u.Run(relName, c, map[string]interface{}{})
+	vTag("namespace-variant state=" + ownStates[state])
+	foreign := state != 0 && state != 3
+	live := w.kube.cluster[objKey{"ConfigMap", "other", "a"}]
+	if foreign && !u.TakeOwnership {
+		vAssert("gate-ns/refused", err != nil)
+		vAssert("gate-ns/refused-before-any-write", len(w.kube.writes) == 0 && len(w.store.writes) == 0 && histString(w.history()) == before)
+		vAssert("gate-ns/foreign-object-untouched", live != nil && live.Data == "foreign")
+	} else {
+		vAssert("gate-ns/accepted", err == nil && live != nil && live.Annotations[helmReleaseNameAnnotation] == relName)
+	}
 }
 
 func H07Gate() {
